@@ -348,7 +348,8 @@ theorem hardOCDLossT_spec (cfg : Cfg) (hex : cfg.excludeLast = true) (bf : Bool)
     (hN : batchOf bf ref = batchOf bf hyp) (hpos : 0 < batchOf bf ref) (hH : 0 < seqLen bf hyp)
     (hl0 : lsm.d0 = hyp.d0) (hl1 : lsm.d1 = hyp.d1)
     (heos : (cfg.includeEos && badEos cfg.eos cfg.padding lsm.d2) = false)
-    (hign : ∀ n k, n < batchOf bf ref → cfg.padding ∉ targetList cfg bf ref hyp n k) :
+    (hign : ∀ n k, n < batchOf bf ref → cfg.padding ∉ targetList cfg bf ref hyp n k)
+    (hcls : ∀ n k, n < batchOf bf ref → ∀ t ∈ targetList cfg bf ref hyp n k, 0 ≤ t ∧ t < (lsm.d2 : Int)) :
     (∃ L, hardOCDLossT cfg bf .none w lsm ref hyp = .ok (.matrix L) ∧ L.d0 = hyp.d0 ∧ L.d1 = hyp.d1 ∧
         ∀ k n, k < seqLen bf hyp → n < batchOf bf ref →
           L.get 0 (if bf then n else k) (if bf then k else n) = specCell cfg bf w lsm ref hyp k n) ∧
@@ -378,6 +379,26 @@ theorem hardOCDLossT_spec (cfg : Cfg) (hex : cfg.excludeLast = true) (bf : Bool)
     cases bf
     · exact ⟨rfl, hN⟩
     · exact ⟨hN, rfl⟩
+  have hbt : badTarget cfg.padding lsm.d2 out = false := by
+    by_contra hne
+    rw [Bool.not_eq_false] at hne
+    simp only [badTarget, List.any_eq_true, List.mem_range, Bool.and_eq_true, bne_iff_ne, ne_eq,
+      Bool.or_eq_true, decide_eq_true_eq] at hne
+    obtain ⟨a, ha, b, hb, t, ht, htp, hbad⟩ := hne
+    rw [hd0] at ha
+    rw [hd1] at hb
+    have key : ∀ k n, k < seqLen bf hyp → n < batchOf bf ref →
+        t ∈ out.vec cfg.padding (if bf then n else k) (if bf then k else n) → False := by
+      intro k n hk hn hmem
+      obtain ⟨_, hv⟩ := hrows k n (by omega) hn
+      rw [hv, List.mem_append] at hmem
+      rcases hmem with hmem | hmem
+      · have := hcls n k hn t hmem
+        omega
+      · exact htp (List.eq_of_mem_replicate hmem)
+    cases bf
+    · exact key a b (by simpa using ha) (by simpa using hb) (by simpa using ht)
+    · exact key b a (by simpa using hb) (by simpa using ha) (by simpa using ht)
   have hcall : ∀ red, hardOCDLossT cfg bf red w lsm ref hyp = .ok (match red with
       | .none => .matrix (lossNoneT cfg.padding w lsm out)
       | .sum => .scalar (lossSumT (lossNoneT cfg.padding w lsm out))
@@ -388,7 +409,8 @@ theorem hardOCDLossT_spec (cfg : Cfg) (hex : cfg.excludeLast = true) (bf : Bool)
     have c1 : ¬ (lsm.d0 ≠ hyp.d0 ∨ lsm.d1 ≠ hyp.d1) := by simp [hl0, hl1]
     rw [if_neg c1, heos]
     simp only [Bool.false_eq_true, if_false]
-    rw [if_neg (by rw [hdims.1, hdims.2]; exact fun h => h rfl)]
+    rw [if_neg (by rw [hdims.1, hdims.2]; exact fun h => h rfl), hbt]
+    simp only [Bool.false_eq_true, if_false]
     cases red <;> rfl
   refine ⟨⟨_, hcall .none, ?_, ?_, ?_⟩, ?_, ?_⟩
   · show out.d0 = hyp.d0
@@ -465,5 +487,43 @@ theorem hardOCDLossT_spec (cfg : Cfg) (hex : cfg.excludeLast = true) (bf : Bool)
         apply List.filter_congr
         intro k hk
         exact (hcell k n (List.mem_range.mp hk) hn').2
+
+/-- **A listed target that is no class index**: under the other preconditions of `hardOCDLossT_spec`, if
+the target list of some place (prefix `k`, sequence `n`) holds a token `t ≠ ignore_index` outside
+`[0, V)`, the model raises `IndexError` (the `Target … is out of bounds` of `cross_entropy`) for every
+reduction — it does not return a number computed from a clamped class index. -/
+theorem hardOCDLossT_rejects_target (cfg : Cfg) (hex : cfg.excludeLast = true) (bf : Bool) (red : Reduction)
+    (w : Int → Rat) (lsm : Tens3 Rat) (ref hyp : Tens2 Int)
+    (hN : batchOf bf ref = batchOf bf hyp) (hpos : 0 < batchOf bf ref) (hH : 0 < seqLen bf hyp)
+    (hl0 : lsm.d0 = hyp.d0) (hl1 : lsm.d1 = hyp.d1)
+    (heos : (cfg.includeEos && badEos cfg.eos cfg.padding lsm.d2) = false)
+    (k n : Nat) (hk : k < seqLen bf hyp) (hn : n < batchOf bf ref) (t : Int)
+    (ht : t ∈ targetList cfg bf ref hyp n k) (htp : t ≠ cfg.padding) (hbad : t < 0 ∨ (lsm.d2 : Int) ≤ t) :
+    hardOCDLossT cfg bf red w lsm ref hyp = .error "IndexError" := by
+  obtain ⟨out, hout, hd0, hd1, hrows⟩ := optimalCompletionT_spec cfg bf ref hyp hN hpos
+  have hHp : 1 + nIter cfg.excludeLast (seqLen bf hyp) = seqLen bf hyp := by
+    rw [hex]; exact nIter_true _ hH
+  rw [hHp] at hd0 hd1
+  have hdims : out.d0 = lsm.d0 ∧ out.d1 = lsm.d1 := by
+    rw [hl0, hl1, hd0, hd1]
+    cases bf
+    · exact ⟨rfl, hN⟩
+    · exact ⟨hN, rfl⟩
+  have hbt : badTarget cfg.padding lsm.d2 out = true := by
+    obtain ⟨_, hv⟩ := hrows k n (by omega) hn
+    have hmem : t ∈ out.vec cfg.padding (if bf then n else k) (if bf then k else n) := by
+      rw [hv]; exact List.mem_append_left _ ht
+    simp only [badTarget, List.any_eq_true, List.mem_range, Bool.and_eq_true, bne_iff_ne, ne_eq,
+      Bool.or_eq_true, decide_eq_true_eq]
+    refine ⟨if bf then n else k, ?_, if bf then k else n, ?_, t, hmem, htp, hbad⟩
+    · rw [hd0]; cases bf <;> simpa
+    · rw [hd1]; cases bf <;> simpa
+  unfold hardOCDLossT
+  rw [cfg_excl_eta cfg hex, hout]
+  have c1 : ¬ (lsm.d0 ≠ hyp.d0 ∨ lsm.d1 ≠ hyp.d1) := by simp [hl0, hl1]
+  rw [if_neg c1, heos]
+  simp only [Bool.false_eq_true, if_false]
+  rw [if_neg (by rw [hdims.1, hdims.2]; exact fun h => h rfl), hbt]
+  simp
 
 end PdtVerif.OptCompletion
